@@ -148,6 +148,31 @@ class C14(Prop):
                         except Exception as e:
                             rb["exc"] = _exc(e)
                         out.append(rb)
+                    # the same Circuit object run forward a second time: backward without a supplied record undoes
+                    # the most recent trajectory (the record list accumulates over runs)
+                    if outs:
+                        rb = {"op": "trajback", "prog": prog, "variant": "own2"}
+                        try:
+                            if scn["init"] == "tab":
+                                S2 = be.state(scn["rows"], scn["r"])
+                            else:
+                                S2 = {"zero": St.zero_state, "ghz": St.ghz_state, "mixed": St.maximally_mixed_state}[scn["init"]](n)
+                            be.seed(scn["seed"] + 101)
+                            c.forward(S2)
+                            p2 = be.p_state(S2)
+                            rb["pre"] = p2
+                            rb["outs"] = [(_as_int(v) if _as_int(v) is not None else 0) for v in c.measure_result][-len(outs):]
+                            if p2["r"] == 0:
+                                T = be.state(p2["rows"], 0)
+                                try:
+                                    c.backward(T)
+                                    rb["post"] = be.p_state(T)
+                                except ValueError:
+                                    rb["refused"] = "ValueError"
+                                out.append(rb)
+                        except Exception as e:
+                            rb["exc"] = _exc(e)
+                            out.append(rb)
             except Exception as e:
                 rec["exc"] = _exc(e)
                 out.append(rec)
